@@ -555,7 +555,7 @@ def main():
         run.violation("correspondence broken: %d of %d requests have emitted vertices that the interval tactic cannot place on the "
                       "curve of model/TracerR.v within 1e-9 (first: %s request %r); the float oracle found no vertex off the expected curve"
                       % (len(bad), len(scripts), s["kind"], {k: v for k, v in s.items() if k in ("start", "target", "centre", "radius", "turns", "pitch", "ccw")}),
-                      dict(correspondence="TracerR shape functions vs emitted vertices (build/cases/C10/req_%d.v)" % idx, coqc_output=out,
+                      dict(correspondence="TracerR shape functions vs emitted vertices (generated script req_%d.v)" % idx, coqc_output=out,
                            theorems=["C10_arc_const_radius", "C10_arc_sweep", "C10_helix_radius"]), no_input=True)
     proof_broken_violation(run, st, found)
     run.cov["rule"] = ("valid requests for arc (planar/helical), arc_radius (both signs, incl. radii snapped to the half circle), circle, "
